@@ -157,6 +157,79 @@ theorem objects_roundtrip {α} (frames : List (SubFrame M)) (args : List α)
       rw [hs.2.2]; simp; omega
     rw [List.getElem?_eq_none h1, List.getElem?_eq_none (by simp [hlen]; omega)]
 
+/-! ### object components follow the same scatter as the metadata -/
+
+/-- the renamed component of one local axis (as `components` computes it) -/
+def renamedComp (f : SubFrame M) (ren : List String) (c : String × Nat) : Option (String × Nat) :=
+  let k := match f.keys.idxOf? c.1 with
+    | some j => (ren[j]?).getD c.1
+    | none => c.1
+  some (k, c.2)
+
+/-- the sub-frames re-labelled with their renamed components as payload -/
+def compFrames (frames : List (SubFrame M)) (renamed : List (List String)) : List (SubFrame (Option (String × Nat))) :=
+  (frames.zip renamed).map (fun fr => { axesOrder := fr.1.axesOrder, info := fr.1.comps.map (renamedComp fr.1 fr.2), keys := fr.1.keys, comps := fr.1.comps })
+
+theorem compFrames_axes (frames : List (SubFrame M)) (renamed : List (List String)) (hlen : renamed.length = frames.length) :
+    (compFrames frames renamed).map (·.axesOrder) = frames.map (·.axesOrder) := by
+  unfold compFrames
+  rw [List.map_map]
+  have : frames.map (·.axesOrder) = ((frames.zip renamed).map (·.1)).map (·.axesOrder) := by
+    rw [List.map_fst_zip (by omega)]
+  rw [this, List.map_map]
+  rfl
+
+theorem allAxes_eq_of_map {M₁ M₂} (a : List (SubFrame M₁)) (b : List (SubFrame M₂)) (h : a.map (·.axesOrder) = b.map (·.axesOrder)) :
+    allAxes a = allAxes b := by
+  have e1 : allAxes a = (a.map (·.axesOrder)).flatten := by simp [allAxes, List.flatMap_def]
+  have e2 : allAxes b = (b.map (·.axesOrder)).flatten := by simp [allAxes, List.flatMap_def]
+  rw [e1, e2, h]
+
+theorem components_eq_meta (frames : List (SubFrame M)) (renamed : List (List String)) (hlen : renamed.length = frames.length)
+    (hnd : (allAxes frames).Nodup) :
+    compositeMeta (compFrames frames renamed) none = .ok (components frames renamed) := by
+  have hax := allAxes_eq_of_map _ _ (compFrames_axes frames renamed hlen)
+  have hn : naxesOf (compFrames frames renamed) = naxesOf frames := by
+    rw [naxesOf_eq, naxesOf_eq, hax]
+  unfold compositeMeta
+  rw [hax]
+  simp only [hnd, ↓reduceIte, hn]
+  congr 1
+  unfold components compFrames
+  rw [List.flatMap_map]
+  rfl
+
+/-- **components_aligned.** Entry `i` of `world_axis_object_components` is the (renamed) component of the unique
+    (sub-frame `j`, local axis `k`) with `axes_order[k] = i` - the same (sub-frame, local axis) whose metadata entry `i` carries. -/
+theorem components_aligned (frames : List (SubFrame M)) (renamed : List (List String)) (hlen : renamed.length = frames.length)
+    (hcomps : ∀ f ∈ frames, f.comps.length = f.axesOrder.length)
+    (hnd : (allAxes frames).Nodup) (hrange : ∀ i ∈ allAxes frames, i < naxesOf frames)
+    (j : Nat) (hj : j < frames.length) (k : Nat) (hk : k < frames[j].axesOrder.length) :
+    (components frames renamed)[frames[j].axesOrder[k]]? =
+      ((frames[j].comps.map (renamedComp frames[j] (renamed[j]'(by omega))))[k]?) := by
+  have hax := allAxes_eq_of_map _ _ (compFrames_axes frames renamed hlen)
+  have hn : naxesOf (compFrames frames renamed) = naxesOf frames := by rw [naxesOf_eq, naxesOf_eq, hax]
+  have hjz : j < (frames.zip renamed).length := by simp [List.length_zip]; omega
+  have hmem : (compFrames frames renamed)[j]'(by simp [compFrames, List.length_zip]; omega) ∈ compFrames frames renamed :=
+    List.getElem_mem _
+  have hget : (compFrames frames renamed)[j]'(by simp [compFrames, List.length_zip]; omega) =
+      { axesOrder := frames[j].axesOrder, info := frames[j].comps.map (renamedComp frames[j] (renamed[j]'(by omega))),
+        keys := frames[j].keys, comps := frames[j].comps } := by
+    simp [compFrames, List.getElem_zip]
+  have := metadata_aligned (compFrames frames renamed) none (components frames renamed)
+    (by
+      intro f hf
+      simp only [compFrames, List.mem_map] at hf
+      obtain ⟨fr, hfr, rfl⟩ := hf
+      simp only [List.length_map]
+      exact hcomps fr.1 (List.of_mem_zip hfr).1)
+    (by intro i hi; rw [hn]; rw [hax] at hi; exact hrange i hi)
+    (components_eq_meta frames renamed hlen hnd)
+    _ hmem k (by rw [hget]; exact hk)
+  simp only [hget] at this
+  exact this
+
+
 /-- **rename_unique.** The class keys handed out to the sub-frames' objects are pairwise distinct,
     whatever keys the sub-frames declare (duplicate frame kinds included). -/
 theorem pickFresh_not_mem (key : String) (count : Nat) (used : List String) (nk : String)
